@@ -222,6 +222,11 @@ def run(ctx):
                 report_violation(ctx, "config:empty-namespace-list-reads-files", {"case": project_text(p), "format": fmt, "implementation": r.get("result", r),
                                                                                  "expected_by_spec": "no file is read: there is no (namespace, locale) pair"})
                 continue
+            if r.get("result", {}).get("err") == "LocaleFileNotFound":
+                # every (namespace, locale) file of the configuration was written, under an accepted extension
+                report_violation(ctx, "config:existing-file-not-found", {"case": project_text(p), "format": fmt, "files_written": [f for f, _ in proj.file_list(p, fmt)],
+                                                                        "implementation": r["result"], "expected_by_spec": "the file of every configured (namespace, locale) pair is found and read"})
+                continue
             if "tracked" not in r or "cfg" not in r:
                 continue
             cfg = r["cfg"]
